@@ -467,6 +467,12 @@ def assemble(route, po, calls, body, decorate=False, modifier=None):
                      'callee%d_real = callee%d\ncallee%d = functools.partial(route_, audit_)\n' % (i, i, i))
     n = len(calls)
     if route == 'global' or route == 'inner_partial':
+        if (len(ostr) + len(body) + n) % 4 == 0:
+            # an earlier definition of the same name in the same file, forwarding elsewhere, and already inspected
+            # when the real one is defined (redefinition, the two branches of an `if`): whatever is remembered about a
+            # function's source must be remembered for THAT function
+            src += ('def outer(*args, **kwargs):\n    return alt_callee(*args, **kwargs)\n_earlier_outer = outer\n'
+                    'import sigtools as _st_\n_earlier_sig = _st_.signature(_earlier_outer)\n')
         src += defs + deco + 'def outer(%s):\n%s\ntarget = outer\nraw_outer = outer\n' % (ostr, ind(body))
         src += 'callee_objs = [%s]\n' % ', '.join('callee%d' % i for i in range(n))
     elif route == 'closure':
